@@ -10,8 +10,8 @@ Import ListNotations.
 Definition rloading (s : state) (r : nat) : bool := getf r_loading true (runners s) r.
 
 (* program counters between "the runner is known to be loaded" and the success reply *)
-Definition ldpc (p : pc) : option nat :=
-  match p with PPing _ r | PUse _ r | PUseSend _ r | LWOk _ r => Some r | _ => None end.
+Fixpoint ldpc (p : pc) : option nat :=
+  match p with PPing _ r | PUse _ r | PUseSend _ r | LWOk _ r => Some r | TEntry p' => ldpc p' | _ => None end.
 
 Definition I_ld (s : state) : Prop :=
   forall t p r, nth_error (thr s) t = Some p -> ldpc p = Some r -> rloading s r = false.
@@ -55,5 +55,38 @@ Proof.
   - unfold step in H. destruct (nth_error (thr s) t) as [p|] eqn:Ep; try discriminate.
     destruct p; try (step_cases H; simpl in Hn; thr_cases Hn; simpl in Hp; try discriminate Hp;
       try (match type of Hp with Some _ = Some _ => inv Hp end); eauto; fail).
-    all: idtac "REM"; match goal with |- ?G => idtac G end.
-Admitted.
+    all: step_cases H; simpl in Hn; thr_cases Hn; simpl in Hp; try discriminate Hp;
+      try (match type of Hp with Some _ = Some _ => inv Hp end); eauto.
+    + (* PNr -> PPing: needsReload saw loading = false under refMu(r) *)
+      apply orb_false_elim in E2. destruct E2 as [_ E2]. apply negb_false_iff in E2. unfold reusable in E2.
+      apply andb_prop in E2. destruct E2 as [E2 _]. apply negb_true_iff in E2.
+      ld_unfold; simpl in *; acc_norm. erewrite getf_some by eassumption. exact E2.
+    + (* LWWait -> LWOk: WaitUntilRunning returned nil *)
+      ld_unfold; simpl in *; acc_norm. rewrite Nat.eqb_refl. reflexivity.
+Qed.
+
+Lemma I_ld_Reach c s ev : Reach c s ev -> I_ld s.
+Proof.
+  revert s ev. apply Reach_ind_inv.
+  - intros m t p r Hn Hp. simpl in Hn. destruct t as [|[|t]]; simpl in Hn; try (inv Hn; discriminate Hp). destruct t; discriminate Hn.
+  - intros; eapply I_ld_step; eauto.
+Qed.
+
+(* a success reply for runner r is sent only from a state in which r's load has completed *)
+Theorem no_grant_loading c s ev l s' e q r cl :
+  Reach c s ev -> step c s l = Some (s', e) -> In (EReply q (ROk r cl)) e -> rloading s r = false.
+Proof.
+  intros R H Hin. pose proof (I_ld_Reach _ _ _ R) as A.
+  destruct l as [sp|q0|m|d|t alt].
+  - step_cases H; simpl in Hin; repeat (destruct Hin as [Hin|Hin]; [discriminate Hin|]); tauto.
+  - step_cases H; simpl in Hin; tauto.
+  - step_cases H; simpl in Hin; tauto.
+  - step_cases H; simpl in Hin; tauto.
+  - unfold step in H. destruct (nth_error (thr s) t) as [p|] eqn:Ep; try discriminate.
+    destruct p; step_cases H; simpl in Hin;
+    repeat (destruct Hin as [Hin|Hin]; [try discriminate Hin|]); try tauto;
+    inv Hin; eapply A; eauto; reflexivity.
+Qed.
+
+Lemma rloading_false s r : rloading s r = false -> exists x, getr s r = Some x /\ r_loading x = false.
+Proof. unfold rloading, getf, getr. destruct (nth_error (runners s) r); intros H; try discriminate. eauto. Qed.
